@@ -109,14 +109,14 @@ def parse_runs(tier):
                 parse_run('str3', 'str', 3, 1000), parse_run('num6', 'num', 6, 1000),
                 parse_run('lit5', 'lit', 5, 1000), parse_run('ws4', 'ws', 4, 1000), parse_run('long4', 'long', 4, 1000),
                 parse_run('edit5', 'tok', 5, 1000, edits=True),
-                parse_run('bigq', 'bigq', 0, 1000), parse_run('allbytes', 'allbytes', 0, 1000),
+                parse_run('bigq', 'bigq', 0, 1000), parse_run('allbytes', 'allbytes', 0, 1000), parse_run('esctab', 'esctab', 0, 1000),
                 parse_run('bigqdef', 'bigq', 0, 1000, extra=' --defaulthooks'), parse_run('strtable', 'strtable', 0, 1000, extra=' --numsweep 600000'), parse_run('strtabledef', 'strtable', 0, 1000, extra=' --defaulthooks'),
                 parse_run('longasan', 'long', 4, 1000, flavour='asan'), parse_run('bigqasan', 'bigq', 0, 1000, flavour='asan')]
     return [parse_run('tok9', 'tok', 9, 4, flavour='limits'), parse_run('nest11', 'nest', 11, 4, flavour='limits'), parse_run('nest9L2', 'nest', 9, 2, flavour='limits2'), parse_run('deepL2', 'deep', 0, 2, flavour='limits2'), parse_run('deepL4', 'deep', 0, 4, flavour='limits'),
             parse_run('str4', 'str', 4, 1000, timeout=5000), parse_run('num8', 'num', 8, 1000),
             parse_run('lit6', 'lit', 6, 1000), parse_run('ws6', 'ws', 6, 1000), parse_run('long6', 'long', 6, 1000),
             parse_run('edit7', 'tok', 7, 1000, edits=True, timeout=5000), parse_run('tok7plain', 'tok', 7, 1000),
-            parse_run('big', 'big', 0, 1000), parse_run('allbytes', 'allbytes', 0, 1000),
+            parse_run('big', 'big', 0, 1000), parse_run('allbytes', 'allbytes', 0, 1000), parse_run('esctab', 'esctab', 0, 1000),
             parse_run('bigdef', 'big', 0, 1000, extra=' --defaulthooks'), parse_run('strtablefull', 'strtable', 0, 1000, extra=' --fulltable --numsweep 6000000'), parse_run('strtabledef', 'strtable', 0, 1000, extra=' --defaulthooks'),
             parse_run('longasan', 'long', 6, 1000, flavour='asan'), parse_run('bigasan', 'big', 0, 1000, flavour='asan'), parse_run('str3asan', 'str', 3, 1000, flavour='asan')]
 
